@@ -26,6 +26,8 @@ type Stores struct {
 
 	mu     sync.Mutex
 	writes int // successful store writes (all stores)
+
+	cut *atomixCut // cuts the configuration store's methods between two Atomix writes
 }
 
 func (s *Stores) noteWrite() {
@@ -267,57 +269,55 @@ func (v *cfgView) emit(typ configapi.ConfigurationEvent_EventType, id configapi.
 	v.st.cfgHub.Emit(configapi.ConfigurationEvent{Type: typ, Configuration: cloneCfg(c)})
 }
 
-func (v *cfgView) Create(ctx context.Context, c *configapi.Configuration) error {
-	if err := v.g.enter("cfg.Create", true); err != nil {
+// Create, Update and UpdateStatus consist of several persisted Atomix writes in
+// the real store (path values, removals, the record). A crash between two of
+// them is produced for real: the store's Atomix connections carry an
+// interceptor (atomixcut.go) that refuses the k-th write of the call and
+// everything after it, whatever order the store's code writes in.
+func (v *cfgView) multiWrite(op string, evt configapi.ConfigurationEvent_EventType, c *configapi.Configuration, call func() error) error {
+	if err := v.g.enter(op, true); err != nil {
 		return err
 	}
-	if err := v.st.Cfg.Create(ctx, c); err != nil {
+	k := 0
+	if v.g != nil && v.g.s != nil && !v.g.nb {
+		k = v.g.s.midCallCrash(v.g, op)
+	}
+	cut := v.st.cut
+	if cut == nil || v.g == nil || v.g.s == nil {
+		if err := call(); err != nil {
+			return err
+		}
+		v.st.noteWrite()
+		v.emit(evt, c.ID)
+		return nil
+	}
+	cut.begin(k)
+	err := call()
+	n, fired := cut.end()
+	if !v.g.nb {
+		v.g.s.noteSubWrites(n)
+	}
+	if fired {
+		v.g.s.x.Logf("  crash inside %s: before Atomix write %d of the call", op, k)
+		v.g.s.crashNow(v.g)
+		return errCrashed
+	}
+	if err != nil {
 		return err
 	}
 	v.st.noteWrite()
-	v.emit(configapi.ConfigurationEvent_CREATED, c.ID)
+	v.emit(evt, c.ID)
 	return nil
 }
 
-// Update and UpdateStatus consist of two persisted sub-writes in the real
-// store (values map first, record second). A crash between the two is
-// emulated by forwarding the call with a stale Version: the values are
-// written, the record update is refused.
+func (v *cfgView) Create(ctx context.Context, c *configapi.Configuration) error {
+	return v.multiWrite("cfg.Create", configapi.ConfigurationEvent_CREATED, c, func() error { return v.st.Cfg.Create(ctx, c) })
+}
 func (v *cfgView) Update(ctx context.Context, c *configapi.Configuration) error {
-	if err := v.g.enter("cfg.Update", true); err != nil {
-		return err
-	}
-	if c.Values != nil && v.g != nil && v.g.s != nil && v.g.s.midCallCrash(v.g, "cfg.Update") {
-		stale := cloneCfg(c)
-		stale.Version += 1 << 40
-		_ = v.st.Cfg.Update(ctx, &stale)
-		v.g.s.crashNow(v.g)
-		return errCrashed
-	}
-	if err := v.st.Cfg.Update(ctx, c); err != nil {
-		return err
-	}
-	v.st.noteWrite()
-	v.emit(configapi.ConfigurationEvent_UPDATED, c.ID)
-	return nil
+	return v.multiWrite("cfg.Update", configapi.ConfigurationEvent_UPDATED, c, func() error { return v.st.Cfg.Update(ctx, c) })
 }
 func (v *cfgView) UpdateStatus(ctx context.Context, c *configapi.Configuration) error {
-	if err := v.g.enter("cfg.UpdateStatus", true); err != nil {
-		return err
-	}
-	if c.Status.Applied.Values != nil && v.g != nil && v.g.s != nil && v.g.s.midCallCrash(v.g, "cfg.UpdateStatus") {
-		stale := cloneCfg(c)
-		stale.Version += 1 << 40
-		_ = v.st.Cfg.UpdateStatus(ctx, &stale)
-		v.g.s.crashNow(v.g)
-		return errCrashed
-	}
-	if err := v.st.Cfg.UpdateStatus(ctx, c); err != nil {
-		return err
-	}
-	v.st.noteWrite()
-	v.emit(configapi.ConfigurationEvent_UPDATED, c.ID)
-	return nil
+	return v.multiWrite("cfg.UpdateStatus", configapi.ConfigurationEvent_UPDATED, c, func() error { return v.st.Cfg.UpdateStatus(ctx, c) })
 }
 func (v *cfgView) Watch(ctx context.Context, ch chan<- configapi.ConfigurationEvent, opts ...cfgstore.WatchOption) error {
 	_, replay := cfgstore.WatchOptionsForVerif(opts...)
